@@ -18,10 +18,11 @@ def check_close_all(ctx: Ctx, oid: str) -> None:
     repo = ctx.repo
     f_fin = repo.func(f"{GB}.ChannelFactory._finished_receiving")
     with ctx.obligation(oid, "close-all") as ob:
+        from ..util import xtext
         loops = [n for n in repo.own_nodes(f_fin) if isinstance(n, ast.For)]
         seen = {}
         for lp in loops:
-            it = unparse(lp.iter)
+            it = xtext(repo, f_fin, lp.iter)
             var = unparse(lp.target)
             calls = [c for s in lp.body for c in ast.walk(s) if isinstance(c, ast.Call)]
             if "self._channels" in it:
@@ -32,7 +33,9 @@ def check_close_all(ctx: Ctx, oid: str) -> None:
                 ok = any(callee_attr(c) == "_no_longer_opened" and unparse(c.args[0]) == var for c in calls)
                 seen["callbacks"] = ok
                 ob.site(f_fin, lp, "every registered callback -> _no_longer_opened(id) (endmarker)", ok=ok)
-            if "_list(" not in it and "list(" not in it:
+            else:
+                continue
+            if "_list(" not in it and "list(" not in it and "tuple(" not in it and "sorted(" not in it:
                 ob.violation(f_fin, lp, "the shutdown sweep iterates a table that is mutated by the calls inside the loop (no snapshot)")
         if not seen.get("channels"):
             ob.violation(f_fin, f_fin.node, "_finished_receiving does not close every registered channel (sendonly): blocked receivers never see EOF", construct="no channel sweep")
@@ -40,7 +43,8 @@ def check_close_all(ctx: Ctx, oid: str) -> None:
             ob.violation(f_fin, f_fin.node, "_finished_receiving does not fire the endmarker of every registered callback", construct="no callback sweep")
         # the flag is set before the sweep
         st = [n for n in repo.own_nodes(f_fin) if isinstance(n, ast.Assign) and "finished" in unparse(n.targets[0])]
-        if st and loops and st[0].lineno > min(l.lineno for l in loops):
+        sweeps = [l for l in loops if "self._channels" in xtext(repo, f_fin, l.iter) or "self._callbacks" in xtext(repo, f_fin, l.iter)]
+        if st and sweeps and st[0].lineno > min(l.lineno for l in sweeps):
             ob.violation(f_fin, st[0], "the finished flag is set after the sweep: a channel created in between is never closed")
 
 
@@ -119,7 +123,7 @@ def check(ctx: Ctx) -> None:
     f_fin = repo.func(f"{GB}.ChannelFactory._finished_receiving")
     f_new = repo.func(f"{GB}.ChannelFactory.new")
     with ctx.obligation("C04.d", "finished-flag") as ob:
-        stores = [(fi, n) for fi in repo.funcs.values() for n in repo.own_nodes(fi) if isinstance(n, ast.Assign)
+        stores = [(fi, n) for fi in repo.scan_funcs() for n in repo.own_nodes(fi) if isinstance(n, ast.Assign)
                   and any(isinstance(t, ast.Attribute) and t.attr == "finished" for t in n.targets) and fi.name != "__init__"]
         ob.require(len(stores) >= 1, "no store to ChannelFactory.finished")
         for fi, n in stores:
@@ -157,6 +161,7 @@ def check(ctx: Ctx) -> None:
     check_close_all(ctx, "C04.e")
 
     with ctx.obligation("C04.f", "send-maps-errors") as ob:
+        from ..util import xtext
         fsend = repo.func(f"{GB}.BaseGateway._send")
         def cr(c, f):
             if callee_attr(c) == "to_io":
@@ -168,7 +173,7 @@ def check(ctx: Ctx) -> None:
         bad = []
         for (p, lab) in cfg.pred[cfg.raise_exit.id]:
             nd = cfg.nodes[p]
-            if isinstance(nd.ast, ast.Raise) and nd.ast.exc is not None and unparse(nd.ast.exc).startswith("OSError"):
+            if isinstance(nd.ast, ast.Raise) and nd.ast.exc is not None and xtext(repo, fsend, nd.ast.exc).startswith("OSError"):
                 continue
             bad.append((nd, lab))
         ob.site(fsend, fsend.node, "every exception of the frame write leaves _send as OSError", escapes=[f"{n.line}:{l}" for n, l in bad])
@@ -194,7 +199,7 @@ def check(ctx: Ctx) -> None:
         fg = repo.func(f"{GB}.Channel._getremoteerror")
         rets = [unparse(n.value) for n in repo.own_nodes(fg) if isinstance(n, ast.Return) and n.value is not None]
         ob.site(fg, None, "_getremoteerror falls back to gateway._error", returns=rets)
-        if "self.gateway._error" not in rets:
+        if "self.gateway._error" not in rets and not any("getattr(self.gateway, '_error'" in r for r in rets):
             ob.violation(fg, fg.node, "_getremoteerror no longer falls back to the gateway's remembered EOFError")
         fr = repo.func(f"{GB}.Channel.receive")
         rs = [n for n in repo.own_nodes(fr) if isinstance(n, ast.Raise) and n.exc is not None and "_getremoteerror" in unparse(n.exc)]
